@@ -239,5 +239,30 @@ func init() {
 		}
 		return VOk(VL(vpmt(p), Val{K: 2, L: q}))
 	})
+	register("pmt.lagshist", func(a []Val) Val {
+		p, err := psi.NewPMT(a[0].B)
+		if err != nil {
+			return VErr(errCode(err))
+		}
+		rm := []int{}
+		for _, v := range a[1].L {
+			rm = append(rm, v.Int())
+		}
+		q1, q2, q3, q4 := []Val{}, []Val{}, []Val{}, []Val{}
+		for _, v := range a[2].L {
+			q1 = append(q1, VBool(p.IsPidForStreamWherePresentationLagsEbp(v.Int())))
+		}
+		p.RemoveElementaryStreams(rm)
+		for _, v := range a[2].L {
+			q2 = append(q2, VBool(p.IsPidForStreamWherePresentationLagsEbp(v.Int())))
+		}
+		for _, v := range a[2].L {
+			q3 = append(q3, VBool(p.PIDExists(v.Int())))
+		}
+		for _, v := range a[2].L {
+			q4 = append(q4, VBool(p.IsPidForStreamWherePresentationLagsEbp(v.Int())))
+		}
+		return VOk(VL(Val{K: 2, L: q1}, Val{K: 2, L: q2}, Val{K: 2, L: q3}, Val{K: 2, L: q4}))
+	})
 	register("pmt.computecrc", func(a []Val) Val { return VB(gots.ComputeCRC(a[0].B)) })
 }
